@@ -6,6 +6,7 @@
 (* Invariants: Twins, NonInterference (refinement to the solo machine), EffectiveMobility.     *)
 EXTENDS PyDRex
 C08Pars == {[M |-> 125, chi |-> 3, asm |-> a, phiOl |-> p, x |-> <<5, 0>>] : a \in {<<0, 1>>, <<1, 0>>}, p \in {7, 3}}
+C08OnePar == {[M |-> 125, chi |-> 3, asm |-> <<0, 1>>, phiOl |-> 7, x |-> <<5, 0>>]}
 cA == [phase |-> 0, fabric |-> 0, regime |-> 4, n |-> 8]
 cC == [phase |-> 1, fabric |-> 5, regime |-> 4, n |-> 8]
 Mk(m, c, s) == [a |-> "Create", m |-> m, c |-> c, seed |-> s, tex |-> "random"]
@@ -29,7 +30,23 @@ C08FaultNext == \/ C08Next
                 \/ \E m \in Minerals, fl \in Flows, par \in Pars, fc \in FaultCodes : UpdateFaulted(m, fl, par, fc)
                 \/ \E ms \in OrderedSubsets, fl \in Flows, par \in Pars, fc \in FaultCodes : UpdateAllFaulted(ms, fl, par, fc)
 C08FaultSpec == C08Init /\ [][C08FaultNext]_vars
-
+\* ... and with duplicated minerals: handle "d" starts empty and becomes a deep copy / an unpickled copy of a live
+\* mineral at some point of the interleaving; from then on it is one more mineral of the aggregate.  The solo
+\* machine of a clone starts from the history it was cloned with (CloneBase), so NonInterference keeps its meaning.
+C08LifeInit == /\ cfg = [m \in Minerals |-> IF m = "d" THEN NULL ELSE IF m = "c" THEN cC ELSE cA]
+               /\ hist = [m \in Minerals |-> IF m = "d" THEN <<>> ELSE << [o |-> InitO(1, 8, "random"), f |-> InitF(8, "random")] >>]
+               /\ nUpd = [m \in Minerals |-> 0] /\ Fm = [m \in Minerals |-> <<>>]
+               /\ disk = [f \in Files |-> <<>>] /\ err = "None" /\ ops = 0
+               /\ log = << Mk("a", cA, 1), Mk("b", cA, 1), Mk("c", cC, 1) >>
+Live == {m \in Minerals : cfg[m] # NULL}
+LiveSubsets == {s \in OrderedSubsets : \A i \in 1..Len(s) : s[i] \in Live}
+C08LifeNext == \/ \E m \in Live, fl \in Flows, par \in Pars :
+                     UpdateOk(m, fl, par, NoCb, NextOP(Last(hist[m]), cfg[m], cfg[m].regime, fl, par, Fm[m]),
+                                                NextFP(Last(hist[m]), cfg[m], cfg[m].regime, fl, par, Fm[m]))
+               \/ \E ms \in LiveSubsets, fl \in Flows, par \in Pars : UpdateAllOk(ms, fl, par, ModelNews(fl, par))
+               \/ \E m \in Live, how \in CloneHows : Clone(m, "d", how)
+               \/ \E m \in Live, fl \in Flows, par \in Pars, fc \in FaultCodes : UpdateFaulted(m, fl, par, fc)
+C08LifeSpec == C08LifeInit /\ [][C08LifeNext]_vars
 \* per-mineral input sequence, reconstructed from the call log
 Touches(e, m) == IF e.a = "UpdateOk" THEN e.m = m
                  ELSE IF e.a = "UpdateAllOk" THEN InSeq(m, e.ms) ELSE FALSE
@@ -50,6 +67,14 @@ Twins == \A m1, m2 \in Minerals :
 OwnFractionOnly == \A m \in Minerals : \A k \in 1..Len(Inputs(m)) :
     LET e == Inputs(m)[k] IN
       OwnKey(m, e)[8] = (IF cfg[m].phase = 0 THEN e.par.phiOl ELSE 10 - e.par.phiOl)
+\* the solo machine of the clone: the inputs of its original up to the Clone call, its own afterwards
+CloneIdx == IF \E k \in 1..Len(log) : log[k].a = "Clone" THEN CHOOSE k \in 1..Len(log) : log[k].a = "Clone" ELSE 0
+LifeInputs(m) == IF m # "d" THEN Inputs(m)
+                 ELSE IF CloneIdx = 0 THEN <<>>
+                 ELSE SelectSeq(SubSeq(log, 1, CloneIdx), LAMBDA e : Touches(e, log[CloneIdx].m))
+                      \o SelectSeq(SubSeq(log, CloneIdx + 1, Len(log)), LAMBDA e : Touches(e, "d"))
+LifeNonInterference == \A m \in Minerals : cfg[m] # NULL => hist[m] = Solo(m, <<hist[m][1]>>, LifeInputs(m), <<>>)
+LifeTwins == \A m \in Minerals : (cfg[m] # NULL /\ cfg["d"] # NULL /\ cfg[m] = cfg["d"] /\ LifeInputs(m) = LifeInputs("d")) => hist[m] = hist["d"]
 EmitDone == (\A m \in Minerals : nUpd[m] = MaxUpd) => (LET tr == Trace IN PrintT(<<"BEH", ToJson([i \in 1..Len(tr) |-> Project(tr[i])])>>))
 EmitTag == (\A m \in Minerals : nUpd[m] = MaxUpd) => PrintT(<<"TAG", ops>>)
 ====
